@@ -192,11 +192,52 @@ class FakeClf(object):
     def __init__(self, tag):
         self.tag = tag
         self._fault = None
+        self._ss = None           # armed SECTOR SELECT fault
+        self._ss_seq = 0          # SECTOR SELECT sequences seen (packet 1 retries belong to one sequence)
+        self._ss_retrying = False
+        self.watch = None         # tag object whose _current_sector is compared with the tag's real sector
+        self.sector_desync = None  # first READ/WRITE sent while the library's sector differed from the tag's
+
+    def fault_ss(self, n, packet, kind):
+        """the n-th SECTOR SELECT sequence from now fails at packet 1 or 2: kind 'timeout' (packet 1 only), 'transmission',
+        'protocol' (garbled answer: the tag did not act on the packet) or 'nak'.  Packet 1 fails for all 3 tries."""
+        self._ss = dict(at=self._ss_seq + n, packet=packet, kind=kind, left=(1 if kind == 'nak' or packet == 2 else 3))
+
+    def _ss_raise(self, kind):
+        if kind == 'nak':
+            return bytearray(b"\x00")
+        raise {'timeout': nfc.clf.TimeoutError, 'transmission': nfc.clf.TransmissionError,
+               'protocol': nfc.clf.ProtocolError}[kind]("sector select fault")
 
     def fault(self, k, kind=nfc.clf.TimeoutError, executed=False, tries=3):
         self._fault = dict(at=len(self.tag.log) + k, kind=kind, executed=executed, left=tries, done=False)
 
     def exchange(self, data, timeout):
+        d = bytes(data)
+        if self.watch is not None and self.sector_desync is None and len(d) >= 2 and d[0] in (0x30, 0xA2) \
+                and not getattr(self.tag, 'pending_sector', False) and not self.tag.dead:
+            if self.watch._current_sector != self.tag.sector:
+                self.sector_desync = (self.watch._current_sector, self.tag.sector, d[:2].hex())
+        if isinstance(self.tag, T2TSim) and not self.tag.dead:
+            if d == b"\xC2\xFF" and not self.tag.pending_sector:
+                if not self._ss_retrying:
+                    self._ss_seq += 1
+                s = self._ss
+                if s is not None and s['at'] == self._ss_seq and s['packet'] == 1:
+                    s['left'] -= 1
+                    self._ss_retrying = s['left'] > 0
+                    if s['left'] <= 0:
+                        self._ss = None
+                    return self._ss_raise(s['kind'])
+                self._ss_retrying = False
+            elif self.tag.pending_sector and len(d) == 4:
+                s = self._ss
+                if s is not None and s['at'] == self._ss_seq and s['packet'] == 2:
+                    self.tag.pending_sector = False       # the tag did not understand the packet and leaves the sequence
+                    self._ss = None
+                    return self._ss_raise(s['kind'])
+            else:
+                self._ss_retrying = False
         f = self._fault
         if f is not None and not self.tag.dead and self.tag.is_write(data):
             nxt = len(self.tag.log) + (0 if f['done'] else 1)
